@@ -8,21 +8,38 @@ import SwV.Spec.C05
 open SwV.Drv SwV.Model.C05 SwV.Spec.C05
 
 abbrev RefMap := Std.TreeMap Nat (Nat × Int)
+abbrev HisMap := Std.TreeMap Nat (List Nat)
 
 structure St where
   os : Nat := 4
   batch : Nat := 100000
   cm : List Sec := []
   ref : RefMap := {}
+  his : HisMap := {}       -- per key: the high offset bytes it was ever stored with (refined judges)
   -- needle mapper level
   kind : String := "mem"
   mem : MemMap := {}
   ldb : LdbMap := {}
   nref : RefMap := {}
+  nhis : HisMap := {}
   hist : History := {}
   reloaded : Bool := false
   pending : Bool := false
   lastMet : List String := []
+
+def hisGet (h : HisMap) (k : Nat) : List Nat := (h.get? k).getD []
+
+def hisAdd (h : HisMap) (k off : Nat) : HisMap :=
+  let old := hisGet h k
+  if old.contains (hiOf off) then h else h.insert k (hiOf off :: old)
+
+/-- an in-window insertion where some entry that moves one slot to the right carries a high offset
+    byte different from the byte in the slot it moves into (the old byte of its right neighbour, 0 in
+    the fresh slot behind the last entry): only then the parallel `valuesExtra` array matters -/
+def windowHiMixed (s0 : Sec) (key : Nat) : Bool :=
+  let skey := skeyOf s0 key
+  let shifted := s0.rvals.takeWhile (fun e => e.key > skey)     -- top entry first
+  (shifted.zip (0 :: shifted.map (·.hi))).any fun en => en.1.hi != en.2
 
 def judgeOut (n : Nat) (j : Option String) (detail : String) : List String :=
   match j with
@@ -69,6 +86,15 @@ def setCov (batch : Nat) (key : Nat) : List Sec → String
         else if key - s.start ≤ limit then secSetCov batch s key
         else "sec.new-beyond-limit-middle"
 
+/-- the section `CompactMap.Set` hands `key` to (when it does not open a new one) -/
+def secFor (key : Nat) : List Sec → Option Sec
+  | [] => none
+  | s :: rest =>
+    if key < s.start then none
+    else match rest with
+      | [] => some s
+      | t :: _ => if t.start ≤ key then secFor key rest else some s
+
 def visitOut (vs : List NV) : List String :=
   let h := vs.foldl (fun h v => (h * 31 + v.key + 7 * fullOff v.off v.hi + 13 * (v.size % 4294967296).toNat) % 18446744073709551616) 0
   let n := vs.length
@@ -89,15 +115,16 @@ def step (st : St) (n : Nat) (ln : Line) : St × List String :=
   let o := ln.outs
   match ln.op with
   | "config" => ({ st with os := tokNat (a.getD 0 "4"), batch := tokNat (a.getD 1 "100000") }, ["COV config"])
-  | "reset" => ({ st with cm := [], ref := {} }, diff n ln ["ok"])
+  | "reset" => ({ st with cm := [], ref := {}, his := {} }, diff n ln ["ok"])
   | "set" =>
     let key := tokNat (a.getD 0 ""); let off := tokNat (a.getD 1 ""); let size := tokInt (a.getD 2 "")
     let cov := setCov st.batch key st.cm
     let (cm', old) := setL st.batch key (offLo off) (offHi off) size st.cm
     let model := [toString (fullOff old.1 old.2.1), toString old.2.2]
-    let j := setJudge (st.ref.get? key) (tokNat (o.getD 0 "")) (tokInt (o.getD 1 ""))
-    ({ st with cm := cm', ref := st.ref.insert key (off, size) },
-      diff n ln model ++ judgeOut n j (a.getD 0 "") ++ ["COV " ++ cov])
+    let j := setJudgeH (st.ref.get? key) (hisGet st.his key) (tokNat (o.getD 0 "")) (tokInt (o.getD 1 ""))
+    let mixed := cov == "set.insert-in-window" && (secFor key st.cm).any (fun s0 => windowHiMixed s0 key)
+    ({ st with cm := cm', ref := st.ref.insert key (off, size), his := hisAdd st.his key off },
+      diff n ln model ++ judgeOut n j (a.getD 0 "") ++ ["COV " ++ cov] ++ (if mixed then ["COV set.insert-in-window-hi-mixed"] else []))
   | "del" =>
     let key := tokNat (a.getD 0 "")
     let (cm', d) := delL st.batch key st.cm
@@ -108,7 +135,7 @@ def step (st : St) (n : Nat) (ln : Line) : St × List String :=
   | "get" =>
     let key := tokNat (a.getD 0 "")
     let r := getL st.batch key st.cm
-    let j := getJudge key (st.ref.get? key) (implNV o)
+    let j := getJudgeH key (st.ref.get? key) (hisGet st.his key) (implNV o)
     (st, diff n ln (nvOut r) ++ judgeOut n j (a.getD 0 "")
       ++ [match r with
           | none => "COV get.notfound"
@@ -117,17 +144,17 @@ def step (st : St) (n : Nat) (ln : Line) : St × List String :=
     let vs := visitL st.cm
     let model := visitOut vs
     let j := if vs.length ≤ 64 ∧ vs.length > 0 ∧ o.length = 3 then
-        visitJudge (st.ref.toList.map fun (k, (of, s)) => (k, of, s)) (parseItems (o.getD 2 ""))
+        visitJudgeH (hisGet st.his) (st.ref.toList.map fun (k, (of, s)) => (k, of, s)) (parseItems (o.getD 2 ""))
       else if toString st.ref.size = o.getD 0 "" then none else some "CompactMap.AscendingVisit/differs"
     (st, diff n ln model ++ judgeOut n j "" ++ [if vs.length > 64 then "COV visit.large" else "COV visit.small"])
   -- ---------------------------------------------------------------- needle mapper level
   | "nreset" =>
-    ({ st with kind := a.getD 0 "mem", mem := {}, ldb := {}, nref := {}, hist := {}, reloaded := false, pending := false, lastMet := [] },
+    ({ st with kind := a.getD 0 "mem", mem := {}, ldb := {}, nref := {}, nhis := {}, hist := {}, reloaded := false, pending := false, lastMet := [] },
       diff n ln ["ok"] ++ ["COV nreset." ++ a.getD 0 ""])
   | "nput" =>
     let key := tokNat (a.getD 0 ""); let off := tokNat (a.getD 1 ""); let size := tokInt (a.getD 2 "")
     let hist := { st.hist with emptyPut := st.hist.emptyPut || decide (size ≤ 0), rewritten := st.hist.rewritten || st.nref.contains key }
-    let st' := { st with nref := st.nref.insert key (off, size), hist := hist }
+    let st' := { st with nref := st.nref.insert key (off, size), nhis := hisAdd st.nhis key off, hist := hist }
     if st.kind == "mem" then ({ st' with mem := st.mem.put st.batch key off size }, diff n ln ["ok"] ++ ["COV nput"])
     else if st.kind == "ldb" then ({ st' with ldb := st.ldb.put key off size }, diff n ln ["ok"] ++ ["COV nput"])
     else (st, diff n ln ["err"])
@@ -142,7 +169,7 @@ def step (st : St) (n : Nat) (ln : Line) : St × List String :=
     let key := tokNat (a.getD 0 "")
     let r : Option NV := if st.kind == "mem" then getL st.batch key st.mem.cm
       else (kvGet st.ldb.kv key).map fun (of, s) => ⟨key, offLo of, offHi of, s⟩
-    (st, diff n ln (nvOut r) ++ judgeOut n (ngetJudge st.kind st.reloaded key (st.nref.get? key) (implNV o)) (a.getD 0 "")
+    (st, diff n ln (nvOut r) ++ judgeOut n (ngetJudgeH st.kind st.reloaded key (st.nref.get? key) (hisGet st.nhis key) (implNV o)) (a.getD 0 "")
       ++ ["COV nget"])
   | "nmet" =>
     let model := if st.kind == "mem" then metOut st.mem.met st.mem.idx.length else metOut st.ldb.met st.ldb.idx.length
